@@ -98,6 +98,7 @@ func (p *poller) addConn(c *Conn) error {
 	p.g.mux.Lock()
 	stopped := p.g.shutdown
 	if !stopped {
+		c.gen = atomic.AddInt32(&connGen, 1)
 		p.g.connsUnix[fd] = c
 	}
 	p.g.mux.Unlock()
@@ -139,6 +140,7 @@ func (p *poller) addDialer(c *Conn) error {
 	p.g.mux.Lock()
 	stopped := p.g.shutdown
 	if !stopped {
+		c.gen = atomic.AddInt32(&connGen, 1)
 		p.g.connsUnix[fd] = c
 	}
 	p.g.mux.Unlock()
@@ -159,9 +161,26 @@ func (p *poller) addDialer(c *Conn) error {
 	return err
 }
 
+var connGen int32
+
 //go:norace
 func (p *poller) getConn(fd int) *Conn {
 	return p.g.connsUnix[fd]
+}
+
+// genOf returns the generation tag of the connection that owns fd now. It
+// travels in the epoll event, so that an event fetched for a connection that
+// has been closed meanwhile is not applied to the connection that got the
+// same descriptor number afterwards.
+//
+//go:norace
+func (p *poller) genOf(fd int) int32 {
+	if fd >= 0 && fd < len(p.g.connsUnix) {
+		if c := p.g.connsUnix[fd]; c != nil {
+			return c.gen
+		}
+	}
+	return 0
 }
 
 //go:norace
@@ -296,6 +315,11 @@ func (p *poller) readWriteLoop() {
 
 			default: // for socket connections
 				c := p.getConn(fd)
+				if c != nil && c.gen != ev.Pad {
+					// a stale event of a closed connection whose descriptor
+					// number has been reused.
+					c = nil
+				}
 				if c != nil {
 					if ev.Events&epollEventsWrite != 0 {
 						if c.onConnected == nil {
@@ -447,6 +471,7 @@ func (p *poller) setRead(op int, fd int) error {
 			if op == syscall.EPOLL_CTL_ADD {
 				return syscall.EpollCtl(p.epfd, op, fd, &syscall.EpollEvent{
 					Fd:     int32(fd),
+					Pad:    p.genOf(fd),
 					Events: events | syscall.EPOLLOUT,
 				})
 			}
@@ -454,6 +479,7 @@ func (p *poller) setRead(op int, fd int) error {
 		}
 		return syscall.EpollCtl(p.epfd, op, fd, &syscall.EpollEvent{
 			Fd:     int32(fd),
+			Pad:    p.genOf(fd),
 			Events: events,
 		})
 	default:
@@ -462,7 +488,8 @@ func (p *poller) setRead(op int, fd int) error {
 			op,
 			fd,
 			&syscall.EpollEvent{
-				Fd: int32(fd),
+				Fd:  int32(fd),
+				Pad: p.genOf(fd),
 				Events: syscall.EPOLLERR |
 					syscall.EPOLLHUP |
 					syscall.EPOLLRDHUP |
@@ -499,6 +526,7 @@ func (p *poller) setReadWrite(op int, fd int) error {
 			if op == syscall.EPOLL_CTL_ADD {
 				return syscall.EpollCtl(p.epfd, op, fd, &syscall.EpollEvent{
 					Fd:     int32(fd),
+					Pad:    p.genOf(fd),
 					Events: events,
 				})
 			}
@@ -506,13 +534,15 @@ func (p *poller) setReadWrite(op int, fd int) error {
 		}
 		return syscall.EpollCtl(p.epfd, op, fd, &syscall.EpollEvent{
 			Fd:     int32(fd),
+			Pad:    p.genOf(fd),
 			Events: events,
 		})
 	default:
 		return syscall.EpollCtl(
 			p.epfd, op, fd,
 			&syscall.EpollEvent{
-				Fd: int32(fd),
+				Fd:  int32(fd),
+				Pad: p.genOf(fd),
 				Events: syscall.EPOLLERR |
 					syscall.EPOLLHUP |
 					syscall.EPOLLRDHUP |
